@@ -113,6 +113,10 @@ VEC_CLASS = {"text": properties.TextVector, "number": properties.NumberVector, "
 EV = {"W": DE.Write, "C": DE.Change, "R": DE.Read}
 
 
+class DeploymentBroken(Exception):
+    """the instantiated drivers do not have the groups / vectors / elements their classes declare"""
+
+
 class World:
     def __init__(self, dep: dict):
         self.dep = dep
@@ -124,6 +128,13 @@ class World:
         self.fmt: Dict[Tuple[int, int], str] = {}
         self.drivers: Dict[str, Any] = {}
         self._build()
+        for vi, vv in enumerate(dep["vecs"], start=1):
+            try:
+                for ei in range(1, len(vv["elems"]) + 1):
+                    self.elem(vi, ei)
+            except Exception as e:
+                raise DeploymentBroken(f"driver {vv['dev']} (inheritance depth {dep.get('inherit', {}).get(vv['dev'], 1)}) lacks declared "
+                                       f"property {vv['name']} of group {dep['grps'][vv['grp'] - 1]['name']}: {type(e).__name__}: {e}")
         self.client = RecClient()
         self.router.register_client(self.client)
         for d in dep["devorder"]:
@@ -178,6 +189,13 @@ class World:
                 part["name"] = dname
                 base = type("Base%d_%s" % (level, dname), (base,), part)
             cls = type("Gen_" + dname, (base,), ns)
+            if chain > 1 and base is not Driver:
+                # a deployment may also run the base driver on its own (another process, an earlier test): instantiating it
+                # must not influence the derived class
+                try:
+                    base(name="BASE_" + dname)
+                except Exception:
+                    pass
             self.drivers[dname] = cls(router=self.router)
 
     def _handler(self, hi: int, h: dict):
@@ -597,6 +615,11 @@ def run(prop: str, tier: str) -> int:
     if len(rej) > 25:
         v.violations.extend(["(more)"] * (len(rej) - 25))
     v.phase("trace_validation")
+    if prop == "C06":
+        # end to end: client -> serializer -> server connection handler -> framing -> router -> driver, and back to the writer's view
+        from . import syscheck
+        syscheck.run_into(v, "C06", tier)
+        v.phase("end_to_end")
     if prop == "C12":
         from . import robust
         robust.run_into(v, tier, r)
